@@ -67,7 +67,7 @@ def c_resolve_target(P):
     P.witness["get_member_outcome"] = SInt(oc)
 
     def get_member(P_, args, kw):
-        log.append(("get_member", args[1]))
+        log.append(("get_member", args[1], a.fields.get("_passed_through")))
         if P_.branch(oc == 0):
             raise PyExc(P_.mk_exc("KeyError", "x"))
         if P_.branch(oc == 1):
@@ -82,6 +82,9 @@ def c_resolve_target(P):
     kind, res = outcome(P, lambda: call(P, MD + "Alias.resolve_target", a))
     now_pt = a.fields["_passed_through"]
     P.prove("flag_restored_on_every_exit", zbool(now_pt) == zbool(old_pt) if not isinstance(now_pt, bool) else z3.BoolVal(now_pt) == zbool(old_pt), outcome=kind)
+    for e in [e for e in log if e[0] == "get_member"]:
+        # the lookup of a dotted target path walks through members that may themselves be aliases and re-enter resolution
+        P.prove("caller_is_marked_while_its_target_is_looked_up", e[2] is True, note="a lookup can re-enter alias resolution")
     recs = [e for e in log if e[0] == "resolve_target"]
     for e in recs:
         P.prove("caller_is_marked_before_recursing", e[2][id(a)] is True, note="variant of the mutual recursion")
